@@ -63,3 +63,15 @@ check("C04",
       "TLA+ specs (Sessions, SessionSeq, SessionsTrace) model-checked with TLC incl. liveness; spec->code replay with "
       "fault injection + lock probe; TLC trace validation of real multi-process executions",
       "DESIGN.md 4/C04", modules=("Sessions", "MCSessions", "SessionSeq", "MCSessionSeq", "SessionsTrace"))
+
+check("C18",
+      "TLC exhausts JobMap.tla (histories of <=3 jobmap runs over 2-3 source keys with scripted per-item outcomes ok / fail / "
+      "omit-return-file / succeed-on-2nd-attempt, two argument versions, pre-populated, foreign-key and fresh destinations; "
+      "plain and vectorised jobs) for DestIsExactlySuccesses, ForeignKeysUntouched, NoReuseOfStaleOrFailed, "
+      "AtMostOncePerValidInput, MustExecuteInvalid, RerunOnlyMissing.  Root paths of the TLC graph covering every abstract "
+      "per-item situation class (+ seeded random paths) are replayed with the real jobmap() and real _molli_run "
+      "subprocesses; after each run the per-item execution counters and the destination contents must equal the model's.",
+      "real runs are sampled from the exhaustive model graph (situation-class cover + random paths; counts in the evidence); "
+      "commands are sh scripts; trusted: TLC, the shell, the counter files",
+      "TLA+ spec (JobMap) model-checked with TLC; spec->code replay of covering behaviours with real subprocesses",
+      "DESIGN.md 4/C18", modules=("JobMap", "MCJobMap"))
